@@ -487,6 +487,50 @@ def rule_F1(repo: Repo) -> RuleResult:
             routes += 1
             res.ok(f1, n, "bool route: " + norm(n.test), "NumPy bool cannot hold nulls (pandas nullable boolean: not decided)",
                    nontrivial=False)
+    # exhaustiveness: every return of factorize_1d hands out codes that come from one of the routes above
+    def code_source_ok(e: ast.AST, at: ast.AST, depth: int = 0) -> bool:
+        if isinstance(e, ast.Call) and (call_name(e) or "") in ("factorize_range_index", "factorize_arrow_arr", "pd.factorize"):
+            return True
+        if isinstance(e, ast.Name) and depth < 4:
+            ds = [(s_.value, s_) for s_ in walk_no_nested(f1.node) if isinstance(s_, ast.Assign)
+                  and any(isinstance(t, ast.Name) and t.id == e.id for t in s_.targets)]
+            return bool(ds) and all(code_source_ok(v_, s_, depth + 1) for v_, s_ in ds)
+        txt = norm(e)
+        if any(isinstance(x, ast.Attribute) and x.attr == "codes" for x in ast.walk(e)):
+            return True
+        if any("is_bool_dtype" in norm(t) for t in _enclosing_tests(f1, at)) and ("view(" in txt or "astype(" in txt):
+            return True
+        return False
+    for r in walk_no_nested(f1.node):
+        if not isinstance(r, ast.Return) or r.value is None:
+            continue
+        v = r.value
+        if isinstance(v, ast.Call):
+            ok = code_source_ok(v, r)
+            first = v
+        else:
+            first = v.elts[0] if isinstance(v, ast.Tuple) and v.elts else v
+            if isinstance(first, ast.Name):
+                srcs = []
+                for s_ in walk_no_nested(f1.node):
+                    if isinstance(s_, ast.Assign):
+                        for t in s_.targets:
+                            if isinstance(t, ast.Name) and t.id == first.id:
+                                srcs.append((s_.value, s_, 0))
+                            elif isinstance(t, ast.Tuple):
+                                for pos_, e_ in enumerate(t.elts):
+                                    if isinstance(e_, ast.Name) and e_.id == first.id:
+                                        srcs.append((s_.value, s_, pos_))     # codes are the FIRST element of a route's result
+                ok = bool(srcs) and all(pos_ == 0 and code_source_ok(val, st) for val, st, pos_ in srcs)
+            else:
+                ok = code_source_ok(first, r)
+        if ok:
+            res.ok(f1, r, f"return {norm(v)[:60]}", "codes come from a null-aware route", nontrivial=False)
+        else:
+            res.bad(f1, r, f"return {norm(v)[:60]}",
+                    f"factorize_1d returns codes ({norm(first)[:40]}) that do not come from one of the null-aware routes (pandas factorize with "
+                    f"the sentinel, categorical codes, arrow dictionary encoding, RangeIndex, NumPy bool): a route that numbers the rows or "
+                    f"values itself gives a null key an ordinary code, so nulls form a group and appear as a label")
     # chunk-wise route
     core = repo.mod("groupby.core")
     fc = core.func("GroupBy._factorize_group_key_in_chunks")
@@ -521,7 +565,7 @@ def rule_F1(repo: Repo) -> RuleResult:
                         "the unsigned monotonic-prefix codes become the first chunk of the chunked code array and fix its "
                         "type: a null code (-1) in a later chunk cannot be represented (ArrowInvalid)")
     res.analysed = {"routes": routes}
-    if routes < 6:
+    if routes < 6 and not res.violations:
         raise AnalysisError(f"F1: only {routes} factorization routes found (floor 6)")
     return res
 
